@@ -156,7 +156,7 @@ func (s *Scanner) scanIdent() (tok Token, lit string) {
 			return GAP, buf.String()
 		case "MATRIX":
 			return MATRIX, buf.String()
-		case "END":
+		case "END", "ENDBLOCK":
 			return END, buf.String()
 		default:
 			return IDENT, buf.String()
